@@ -26,6 +26,13 @@ func ruleC01Selection(c *Ctx) {
 	c.RuleAlias = map[string]string{"C06.anchor": "C01.selection"}
 	defer func() { c.RuleAlias = nil }()
 	ruleC06Anchor(c)
+	// … and the census is over the whole enumeration: a failure of the
+	// listing is not taken for its end (C10.errflow at the scanner's
+	// iterator calls)
+	c.RuleAlias = map[string]string{"C10.errflow": "C01.complete"}
+	c.KeyOnly = func(key string) bool { return strings.HasPrefix(key, "sizes.ScanRepositoryUsingGraph:") }
+	defer func() { c.KeyOnly = nil }()
+	ruleC10Errflow(c)
 }
 
 // ruleC02Borrowed3: the maxima are taken over all the selected objects and
